@@ -142,6 +142,7 @@ func (cs *clientState) setLock(from, to int32) {
 			us = time.Microsecond * time.Duration(rand.Intn(200))
 		}
 		time.Sleep(us)
+		simYield("cs.spin")
 	}
 }
 
@@ -229,6 +230,7 @@ func (cs *clientState) unblock(reason string, isError bool) {
 			us = time.Microsecond * time.Duration(rand.Intn(200))
 		}
 		time.Sleep(us)
+		simYield("cs.spin")
 	}
 }
 
@@ -256,6 +258,7 @@ func (cs *clientState) isBlocked() bool {
 			us = time.Microsecond * time.Duration(rand.Intn(200))
 		}
 		time.Sleep(us)
+		simYield("cs.spin")
 	}
 }
 
